@@ -65,6 +65,8 @@ class DriverError(RuntimeError):
 def ensure_driver():
     """(re)build the model, proofs and driver from the sources on disk; no-op when up to date."""
     import fcntl
+    if os.environ.get("VERIF_GATE_CACHE") == "1" and DRIVER.exists():
+        return
     (LEAN / ".lake").mkdir(exist_ok=True)
     with open(LEAN / ".lake" / "gate.lock", "w") as lk:
         fcntl.flock(lk, fcntl.LOCK_EX)
